@@ -50,6 +50,8 @@ def ann_of(ty: str, shape) -> str:
         return "FLOAT[" + ",".join(map(str, shape)) + "]" if shape else "FLOAT"
     if ty == "M":
         return "BOOL[" + ",".join(map(str, shape)) + "]" if shape else "BOOL"
+    if ty == "N":
+        return "INT64[" + ",".join(map(str, shape)) + "]" if shape else "INT64"
     return {"S": "FLOAT", "B": "BOOL", "I": "INT64"}[ty]
 
 
@@ -58,15 +60,17 @@ INT_LITS = ["0", "1", "2", "3"]
 
 
 class Gen:
-    def __init__(self, rng, max_depth=2):
+    def __init__(self, rng, max_depth=2, subscripts=False):
         self.rng = rng
         self.max_depth = max_depth
+        self.subscripts = subscripts
         self.fresh = {
             "T": ["x", "y", "z", "u", "v", "w"],
             "S": ["p", "q", "r"],
             "B": ["b", "e", "g"],
             "I": ["j", "h"],
             "M": ["mk", "mm"],
+            "N": ["ka", "kb"],
         }
         self.loopvars = ["i", "ii", "iii"]
         self.p = Prog()
@@ -143,6 +147,28 @@ class Gen:
                     b = self.expr(env, "T", 2)
                 self.p.features.add("binop")
                 return f"({a} {sym} {b})"
+            if k < 0.56:
+                # the remaining Python operators of primop_map, tensor on the left
+                form = rng.choice(["div", "div-int", "mod-f", "pow-i", "pow-f", "op-div", "op-pow", "cast-n"])
+                self.p.features.add("arith-" + form)
+                if form == "div":
+                    return f"({a} / {rng.choice(['2.0', '0.5', '-4.0'])})"
+                if form == "div-int":
+                    return f"({a} / {rng.choice(['2', '4', '-2'])})"
+                if form == "mod-f":
+                    return f"({a} % {rng.choice(['2.0', '1.5', '-2.0'])})"
+                if form == "pow-i":
+                    return f"({a} ** {rng.choice(['2', '3'])})"
+                if form == "pow-f":
+                    return f"({a} ** 2.0)"
+                if form == "op-div":
+                    return f"op.Div({a}, {rng.choice(['2.0', '4', '-0.5'])})"
+                if form == "op-pow":
+                    return f"op.Pow({a}, {rng.choice(['2.0', '2'])})"
+                nv = self.pick_var(env, "N")
+                if nv:
+                    return f"op.Add({a}, op.Cast({self.expr(env, 'N', depth + 1)}, to=1))"
+                return f"({a} / 2.0)"
             if k < 0.62:
                 self.p.features.add("unary-op-call")
                 return f"op.{rng.choice(['Neg', 'Abs', 'Relu', 'Identity'])}({a})"
@@ -181,6 +207,19 @@ class Gen:
             if leaf and v:
                 return self.use(v)
             k = rng.random()
+            shp = self.p.shape
+            if self.subscripts and shp and rng.random() < 0.45:
+                # constant subscripts (structure only; index semantics are C11's): the same few integers recur in
+                # every scope, so a cache of index constants that outlives one expression would be visible
+                base = self.pick_var(env, "T") or "A"
+                forms = ["[0]", "[1:3]", "[0:1]", "[::2]", "[1:]", "[:2]", "[-1]", "[2:0:-1]"]
+                if len(shp) >= 2:
+                    forms += ["[:, 0]", "[0, 0]", "[0:1, 1]", "[1, 0:2]", "[:, 1:2]"]
+                self.p.features.add("subscript")
+                return f"op.ReduceSum({base}{rng.choice(forms)}, keepdims=0)"
+            if len(shp) == 1 and shp[0] > 0 and rng.random() < 0.15:
+                self.p.features.add("matmul")
+                return f"({self.expr(env, 'T', depth + 1)} @ {self.expr(env, 'T', depth + 1)})"
             if k < 0.5 or not v:
                 self.p.features.add("reduce")
                 return f"op.ReduceSum({self.expr(env, 'T', depth + 1)}, keepdims=0)"
@@ -208,6 +247,30 @@ class Gen:
                 self.p.features.add("bitand-or")
                 return f"({self.use(v)} {rng.choice(['&', '|'])} {self.expr(env, 'B', depth + 1)})"
             return f"({self.expr(env, 'S', depth + 1)} < {self.lit_f()})"
+        if ty == "N":
+            v = self.pick_var(env, "N")
+            if v is None:
+                raise IndexError("no int tensor")
+            if leaf:
+                return self.use(v)
+            a = self.expr(env, "N", depth + 1)
+            form = rng.choice(["mod", "mod", "mod-neg", "add", "mul", "sub", "neg", "abs", "pow"])
+            self.p.features.add("int-" + form)
+            if form == "mod":
+                return f"({a} % {rng.choice(['2', '3', '5'])})"
+            if form == "mod-neg":
+                return f"({a} % {rng.choice(['-3', '-2'])})"
+            if form == "add":
+                return f"({a} + {rng.choice(['1', '-2', '7'])})"
+            if form == "mul":
+                return f"({a} * {rng.choice(['2', '-3'])})"
+            if form == "sub":
+                return f"({a} - {self.expr(env, 'N', depth + 1)})"
+            if form == "neg":
+                return f"(-{a})"
+            if form == "abs":
+                return f"op.Abs({a})"
+            return f"({a} ** 2)"
         if ty == "I":
             v = self.pick_var(env, "I")
             if v and (leaf or rng.random() < 0.6):
@@ -235,6 +298,8 @@ class Gen:
         ty = self.rng.choice(["T", "T", "T", "S", "B"])
         if ty == "B" and self.rng.random() < 0.5:
             ty = "T"
+        if self.vars_of(env, "N") and self.rng.random() < 0.25:
+            ty = "N"
         tgt = self.target(env, ty)
         if ty == "T" and depth == 0 and self.rng.random() < 0.06:
             # re-assign a tensor parameter (an alias of its incoming value may be returned: fixed by 3b56caa)
@@ -327,6 +392,23 @@ class Gen:
         self.last_result = res
         return ("if", cond, blocks[0], blocks[1])
 
+    def back_edge(self, env, e2, carried, cty, pre: list, body: list):
+        """A variable consumed only across iterations: read at the top of the body, re-assigned inside an
+        if/else further down (together with a second variable that is used right after the if), and read
+        nowhere else.  Its liveness at the end of the if exists only through the loop's back edge."""
+        if cty != "T" or "cr" in env or "cr" in e2 or "wv" in e2:
+            return
+        tp = [n for n, t in self.p.params if t == "T"]
+        a = self.rng.choice(tp)
+        pre.append(("assign", "cr", f"op.Mul({a}, {self.rng.choice(['0.5', '2.0'])})"))
+        body.append(("assign", carried, f"op.Add({carried}, cr)"))
+        cond = f"(op.ReduceSum({carried}, keepdims=0) > {self.rng.choice(['1.0', '0.0', '6.0'])})"
+        body.append(("if", cond,
+                     [("assign", "cr", f"op.Add({a}, 1.0)"), ("assign", "wv", f"op.Neg({a})")],
+                     [("assign", "cr", f"op.Sub(cr, 1.0)"), ("assign", "wv", f"op.Abs({a})")]))
+        body.append(("assign", carried, f"op.Add({carried}, wv)"))
+        self.p.features.add("loop-back-edge-only-variable")
+
     def gen_for(self, env, depth):
         lv = next((v for v in self.loopvars if v not in env), None)
         if lv is None:
@@ -354,6 +436,9 @@ class Gen:
         self.loopvars_in_scope.append(lv)
         saved_must = list(self.must_use)
         body = self.gen_block(e2, depth + 1, self.rng.randint(0, 2))
+        self.pre_stmts = []
+        if self.rng.random() < 0.3:
+            self.back_edge(env, e2, carried, cty, self.pre_stmts, body)
         # carried update: reads itself
         upd = self.rng.random()
         if upd < 0.5:
@@ -391,6 +476,8 @@ class Gen:
             self.must_use.append(carried)
         self.p.features.add("for")
         self.last_result = carried
+        if self.pre_stmts:
+            return ("seq", self.pre_stmts + [("for", lv, bound, body)])
         return ("for", lv, bound, body)
 
     def gen_while(self, env, depth):
@@ -418,6 +505,8 @@ class Gen:
         self.loopvars_in_scope += [cnt, cv]
         saved_must = list(self.must_use)
         body = self.gen_block(e2, depth + 1, self.rng.randint(0, 1))
+        if self.rng.random() < 0.5:
+            self.back_edge(env, e2, carried, cty, pre, body)
         body.append(("assign", carried, f"op.Add({carried}, {self.operand(e2, cty, 1)})"))
         body.append(("assign", cnt, f"({cnt} + 1)"))
         body.append(("assign", cv, f"({cnt} < {n})"))
@@ -481,6 +570,8 @@ class Gen:
             p.params.append(("c", "B"))
         if rng.random() < 0.25:
             p.params.append(("s", "S"))
+        if rng.random() < 0.4:
+            p.params.append(("K", "N"))
         na = rng.choice([0, 0, 1, 1, 2])
         kinds = rng.sample(["float", "int", "bool", "float"], na)
         names = {"float": ["alpha", "beta"], "int": ["k"], "bool": ["flag"]}
@@ -517,6 +608,8 @@ class Gen:
                 rets.append((v, env[v]))
         while len(rets) < nret:
             ty = rng.choice(["T", "T", "S", "B"])
+            if self.vars_of(env, "N") and rng.random() < 0.3:
+                ty = "N"
             r = rng.random()
             if r < 0.12:
                 rets.append((rng.choice([n for n, t in p.params if t == "T"]), "T"))
@@ -608,9 +701,9 @@ def render(p: Prog) -> str:
     return "\n".join(lines) + "\n"
 
 
-def generate(rng, name: str) -> Prog:
+def generate(rng, name: str, subscripts: bool = False) -> Prog:
     for _ in range(50):
-        g = Gen(rng)
+        g = Gen(rng, subscripts=subscripts)
         try:
             p = g.program(name)
         except (IndexError, StopIteration):
@@ -883,10 +976,50 @@ def pred_d33(fn: ast.FunctionDef) -> bool:
     return any(isinstance(s, ast.Return) for s in fn.body[:-1])
 
 
+def _int_names(fn: ast.FunctionDef) -> set:
+    """names that (syntactically) hold integer tensors: INT64-annotated parameters and variables assigned
+    from expressions built only from such names, integer literals and type-preserving operators"""
+    ints = {a.arg for a in fn.args.args if a.annotation is not None and ast.unparse(a.annotation).startswith("INT64")}
+
+    def is_int(e) -> bool:
+        if isinstance(e, ast.Name):
+            return e.id in ints
+        if isinstance(e, ast.Constant):
+            return isinstance(e.value, int) and not isinstance(e.value, bool)
+        if isinstance(e, ast.UnaryOp):
+            return is_int(e.operand)
+        if isinstance(e, ast.BinOp):
+            return is_int(e.left) and is_int(e.right) and not (isinstance(e.left, ast.Constant) and isinstance(e.right, ast.Constant))
+        if isinstance(e, ast.Call) and isinstance(e.func, ast.Attribute) and e.func.attr in ("Abs", "Neg", "Identity"):
+            return all(is_int(a) for a in e.args)
+        return False
+
+    for _ in range(3):
+        for n in ast.walk(fn):
+            if isinstance(n, ast.Assign) and len(n.targets) == 1 and isinstance(n.targets[0], ast.Name) and is_int(n.value):
+                ints.add(n.targets[0].id)
+    return ints, is_int
+
+
+def pred_d36(fn: ast.FunctionDef) -> bool:
+    """`x % <int literal>` where `x` is not an integer tensor expression (the literal is cast to float and
+    ONNX Mod on floats needs fmod=1, which the converter only sets for a float literal)"""
+    _, is_int = _int_names(fn)
+    for n in ast.walk(fn):
+        if isinstance(n, ast.BinOp) and isinstance(n.op, ast.Mod):
+            r = n.right
+            if isinstance(r, ast.UnaryOp):
+                r = r.operand
+            if isinstance(r, ast.Constant) and isinstance(r.value, int) and not isinstance(r.value, bool) \
+                    and not is_int(n.left):
+                return True
+    return False
+
+
 # C01-D23, D25, D26, D30 are fixed in /repo (4304e8f, 87ad64d, 3b56caa, cbb81e7): their regions are generated again
 # (the predicates stay available as `FIXED_PREDICATES` for the evidence histogram).
 PREDICATES = {"C01-D24": pred_d24, "C01-D27": pred_d27, "C01-D28": pred_d28, "C01-D29": pred_d29,
-              "C01-D31": pred_d31, "C01-D33": pred_d33}
+              "C01-D31": pred_d31, "C01-D33": pred_d33, "C01-D36": pred_d36}
 FIXED_PREDICATES = {"C01-D23": pred_d23, "C01-D25": pred_d25, "C01-D26": pred_d26, "C01-D30": pred_d30}
 
 
@@ -953,6 +1086,13 @@ def near_misses(rng, p: Prog) -> list[tuple[str, str, str]]:
        [f"x = op.Neg({a})", "go = op.ReduceSum(x, keepdims=0) < 1.0", "while go:", "    x = op.Abs(x)", "return x"])
     mk("loop-var-first-defined-in-loop", "ValueError",
        [f"for i in range({nsrc}):", f"    y = op.Abs({a})", "return y"])
+    # two versions of the default-domain opset in one function (default_opset is opset18)
+    mk("mixed-opset-top-level", "TranslationError", [f"x = opset17.Abs({a})", "return op.Neg(x)"])
+    mk("mixed-opset-in-branch", "TranslationError",
+       [f"if {condsrc}:", f"    x = opset19.Abs({a})", "else:", f"    x = op.Neg({a})", "return x"])
+    mk("mixed-opset-in-loop", "TranslationError",
+       [f"x = op.Neg({a})", f"for i in range({nsrc}):", "    x = opset17.Relu(x)", "return x"])
+    mk("mixed-opset-in-operand", "TranslationError", [f"x = op.Add({a}, opset20.Abs({a}))", "return x"])
     mk("tensor-as-attribute", "TranslationError", [f"x = op.LeakyRelu({a}, alpha={a})", "return x"])
     # annotation arity mismatch -> SyntaxError from check_num_outputs
     out.append(("return-arity-vs-annotation", "SyntaxError",
@@ -980,6 +1120,10 @@ def gen_inputs(rng, p_params, p_attrs, shape, k: int):
                 size = int(np.prod(shape)) if shape else 1
                 vals = [rng.choice([0.0, 1.0, -1.0, 2.0, 0.5, -2.5, 3.0, 7.0]) for _ in range(size)]
                 feeds[n] = np.array(vals, dtype=np.float32).reshape(shape)
+            elif t == "N":
+                size = int(np.prod(shape)) if shape else 1
+                vals = [rng.choice([-7, -3, -1, 0, 1, 2, 4, 9]) for _ in range(size)]
+                feeds[n] = np.array(vals, dtype=np.int64).reshape(shape)
             elif t == "S":
                 feeds[n] = np.array(rng.choice([0.0, 1.0, -1.5, 4.0]), dtype=np.float32)
             elif t == "B":
@@ -1049,10 +1193,26 @@ class Interp:
     # ---- operators
     def op(self, name, args, kw):
         f32 = np.float32
-        if name in ("Add", "Sub", "Mul", "Div"):
+        if name in ("Add", "Sub", "Mul"):
             a, b = self.promote(args)
-            fn = {"Add": np.add, "Sub": np.subtract, "Mul": np.multiply, "Div": np.divide}[name]
+            fn = {"Add": np.add, "Sub": np.subtract, "Mul": np.multiply}[name]
             return fn(a, b).astype(a.dtype if a.dtype == b.dtype else np.result_type(a, b))
+        if name == "Div":
+            a, b = self.promote(args)
+            if a.dtype.kind in "iu":
+                return np.trunc(np.divide(a, b)).astype(a.dtype)  # ONNX integer division truncates
+            return np.divide(a, b).astype(a.dtype)
+        if name == "Mod":
+            a, b = self.promote(args)
+            if a.dtype.kind == "f" or int(kw.get("fmod", 0)) == 1:
+                return np.fmod(a, b).astype(a.dtype)  # C fmod: sign of the dividend (required for floats)
+            return np.mod(a, b).astype(a.dtype)  # integer Mod, fmod=0: sign of the divisor (Python's %)
+        if name == "Pow":
+            a, b = self.promote(args, [0, 1])
+            return np.power(a, b).astype(a.dtype)
+        if name == "MatMul":
+            a, b = self.promote(args)
+            return np.matmul(a, b).astype(a.dtype)
         if name in ("Less", "Greater", "LessOrEqual", "GreaterOrEqual", "Equal"):
             a, b = self.promote(args)
             fn = {"Less": np.less, "Greater": np.greater, "LessOrEqual": np.less_equal,
@@ -1114,7 +1274,8 @@ class Interp:
                 return np.array(kw["value_float"], dtype=np.float32)
         raise NotImplementedError(name)
 
-    BIN = {ast.Add: "Add", ast.Sub: "Sub", ast.Mult: "Mul", ast.Div: "Div", ast.BitAnd: "And", ast.BitOr: "Or"}
+    BIN = {ast.Add: "Add", ast.Sub: "Sub", ast.Mult: "Mul", ast.Div: "Div", ast.BitAnd: "And", ast.BitOr: "Or",
+           ast.Mod: "Mod", ast.Pow: "Pow", ast.MatMult: "MatMul"}
     CMP = {ast.Lt: "Less", ast.Gt: "Greater", ast.LtE: "LessOrEqual", ast.GtE: "GreaterOrEqual", ast.Eq: "Equal"}
 
     # ---- expressions
